@@ -492,6 +492,86 @@ async fn server_level(rep: &mut Report, mats: &[Material], base: &Path) {
     let _ = std::fs::remove_dir_all(&dir);
 }
 
+/// Automatic path: the file watcher (start_watching, debounce 0) decides when reload() runs. After every update of the
+/// files on disk the state must settle on: the pair on disk if it is a valid pair, the previous state otherwise —
+/// and the watcher keeps working after failures.
+async fn watcher_level(rep: &mut Report, mats: &[Material], base: &Path) {
+    let dir = base.join("watcher-level");
+    let _ = std::fs::create_dir_all(&dir);
+    let st = State { dir: dir.clone(), cert: dir.join("cert.pem"), key: dir.join("key.pem") };
+    std::fs::write(&st.cert, &mats[0].cert_pem).unwrap();
+    std::fs::write(&st.key, &mats[0].key_pem).unwrap();
+    let reloader = match CertReloader::new(CertReloaderConfig { cert_path: st.cert.clone(), key_path: st.key.clone(), watch_enabled: true, debounce_ms: 0, check_expiry: true, expiry_warning_days: 30 }) {
+        Ok(r) => Arc::new(r),
+        Err(e) => {
+            rep.machinery(format!("watcher-level reloader: {e}"));
+            return;
+        }
+    };
+    if let Err(e) = reloader.clone().start_watching() {
+        rep.machinery(format!("watcher-level: start_watching failed: {e}"));
+        return;
+    }
+    tokio::time::sleep(std::time::Duration::from_millis(200)).await;
+    // (disk operations of one update, material expected to be active once things settle; None = nothing valid on disk: unchanged)
+    let history: Vec<(Vec<Op>, Option<usize>)> = vec![
+        (vec![Op::WriteCert(1), Op::WriteKey(1)], Some(1)),
+        (vec![Op::GarbageCert], None),
+        (vec![Op::WriteKey(2), Op::WriteCert(2)], Some(2)),
+        (vec![Op::TruncKey(500)], None),
+        (vec![Op::WritePair(3)], None),
+        (vec![Op::WritePair(0)], Some(0)),
+        (vec![Op::DeleteCert], None),
+        (vec![Op::WritePair(6)], Some(6)),
+        (vec![Op::WriteCert(1)], None),
+        (vec![Op::WriteKey(1)], Some(1)),
+    ];
+    let mut active = 0usize;
+    let mut done: Vec<String> = vec![];
+    for (ops, expect) in history {
+        let count_before = reloader.get_reload_count();
+        for op in &ops {
+            apply_disk(op, &st, mats);
+            tokio::time::sleep(std::time::Duration::from_millis(30)).await;
+        }
+        done.push(ops.iter().map(|o| op_str(o, mats)).collect::<Vec<_>>().join(","));
+        let what = format!("watcher level, after [{}]", done.join(" | "));
+        rep.case(Some(&what));
+        // settle: wait for the reload the update should trigger (or long enough for a failing one to have run)
+        let t0 = std::time::Instant::now();
+        loop {
+            let waited = t0.elapsed().as_millis();
+            if (expect.is_some() && reloader.get_reload_count() > count_before && waited > 250) || waited > if expect.is_some() { 4000 } else { 900 } {
+                break;
+            }
+            tokio::time::sleep(std::time::Duration::from_millis(20)).await;
+        }
+        if let Some(x) = expect {
+            active = x;
+        }
+        match snapshot(&reloader).await {
+            Err(e) => {
+                rep.violation("C18:handshake-fails", &format!("{what}: {e}"), json!({"engine": "LX-watcher", "history": done}));
+                break;
+            }
+            Ok((now, _)) => {
+                if now.leaf != mats[active].der {
+                    let served = mats.iter().find(|m| m.der == now.leaf).map(|m| m.name).unwrap_or("an unknown certificate");
+                    let key = if expect.is_some() { "C18:watcher:valid-pair-on-disk-not-activated" } else { "C18:watcher:state-changed-although-nothing-valid-on-disk" };
+                    rep.violation(key, &format!("{what}: handshakes are served {served}, expected {}", mats[active].name), json!({"engine": "LX-watcher", "history": done}));
+                    break;
+                }
+                let want_serial = mats[active].serial_hex.trim_start_matches('0').to_string();
+                if now.info_serial.as_deref() != Some(want_serial.as_str()) {
+                    rep.violation("C18:reported-info-not-of-active-certificate", &format!("{what}: the active certificate is {} (serial {want_serial}), get_cert_info() reports serial {:?}", mats[active].name, now.info_serial), json!({"engine": "LX-watcher", "history": done}));
+                    break;
+                }
+            }
+        }
+    }
+    let _ = std::fs::remove_dir_all(&dir);
+}
+
 pub fn run(tier: Tier) -> i32 {
     let mut rep = Report::new("C18", tier, "fault_enumeration");
     let thorough = tier.is_thorough();
@@ -613,8 +693,9 @@ pub fn run(tier: Tier) -> i32 {
     {
         let rt = tokio::runtime::Builder::new_multi_thread().worker_threads(2).enable_all().build().unwrap();
         rt.block_on(server_level(&mut rep, &mats, &base));
+        rt.block_on(watcher_level(&mut rep, &mats, &base));
     }
     let _ = std::fs::remove_dir_all(&base);
     rep.sections.insert("jobs".into(), json!({"histories": n_jobs, "depth": depth, "alphabet": alphabet.iter().map(|o| op_str(o, &mats)).collect::<Vec<_>>(), "truncation_prefixes": clen + klen + 2, "sync_points": points}));
-    rep.finish("BX: every history of depth d (+ a final reload) over {write cert/key of pairs B, C, expired D, A2 (same key and serial as A), B2 (same serial as B) (each file alone), truncate cert/key, garbage, delete, reload}; every byte prefix of cert and key; a disk operation landing at each of 5 points inside a reload for 6 pre-states; after every step a real TLS handshake against the current acceptor, get_cert_info / count / last_reload compared with the previous snapshot; plus a real Server (new_with_reloadable_tls on the reloader's shared acceptor, as bin/server.rs builds it) on loopback whose fresh TCP+TLS connections are checked after every step of a 9-step reload history; non-trivial = distinct history")
+    rep.finish("BX: every history of depth d (+ a final reload) over {write cert/key of pairs B, C, expired D, A2 (same key and serial as A), B2 (same serial as B) (each file alone), truncate cert/key, garbage, delete, reload}; every byte prefix of cert and key; a disk operation landing at each of 5 points inside a reload for 6 pre-states; after every step a real TLS handshake against the current acceptor, get_cert_info / count / last_reload compared with the previous snapshot; plus a real Server (new_with_reloadable_tls on the reloader's shared acceptor, as bin/server.rs builds it) on loopback whose fresh TCP+TLS connections are checked after every step of a 9-step reload history; plus the automatic path (file watcher, debounce 0) through a 10-step update history in real time; non-trivial = distinct history")
 }
